@@ -409,6 +409,9 @@ class Ref(object):
                          out_port=st.get("out_port", W.OFPP_NONE),
                          flags=st.get("flags", 0))
     self.world.take_out()
+    store = self.world.switch._packet_buffer
+    self._slot_before = (store[buffer_id - 1]
+                         if 0 < buffer_id <= len(store) else None)
     rs = self.roundtrip(raw)
     now = sim.now
     if fbad is not None:
@@ -534,7 +537,11 @@ class Ref(object):
         # through the given actions like any other -- or it was not, and
         # then the packet is still held and nothing of it went out.
         store = self.world.switch._packet_buffer
-        if 0 < buffer_id <= len(store) and store[buffer_id - 1] is not None:
+        cur = store[buffer_id - 1] if 0 < buffer_id <= len(store) else None
+        # (the very packet that was there before the request: a slot that
+        # was freed and taken again by what the actions sent to the
+        # controller holds another one)
+        if cur is not None and cur is self._slot_before:
           self.sim.probes["deleting_flow_mod_left_buffer"] += 1
           if outs:
             self.dev("C18", "buffer/emitted-and-kept", "%s (a delete) naming "
@@ -592,6 +599,7 @@ class Ref(object):
 
   used_buffers = None
   inflight = 0
+  _slot_before = None
 
   def drop_pending_events(self):
     self.take_async(W.PACKET_IN)
